@@ -113,10 +113,26 @@ pub fn run_schedule(tag: &str, index: u64, sc: &Scenario, source: &mut dyn Decis
     }
     let mut accepted_parents: BTreeSet<Uuid> = chain.iter().take(sc.prior_versions).map(|c| c.1).collect();
     let mut lost_cas = 0u64;
-    for ev in &events {
+    // per client: the parent of its last add_version that was rejected (cleared by a later accepted add)
+    let mut last_rejected: BTreeMap<usize, (Uuid, Uuid)> = BTreeMap::new();
+    for (ev_idx, ev) in events.iter().enumerate() {
         match ev {
+            CEv::AddCall { client, parent, .. } => {
+                // A rejection names a 'latest' other than the given parent; the parent is on the chain
+                // (adders start from the head they know and only advance along served versions), so it
+                // has a child, which must be retrievable: a client that pulls again after the rejection
+                // and comes back with the same parent was told about a version it cannot reach — for a
+                // replica that is the out-of-sync error.
+                if let Some((p0, named)) = last_rejected.get(client) {
+                    if p0 == parent && on_chain.contains_key(named) {
+                        out.violate("rejected-parent-without-retrievable-child".to_string(), format!("client {client}: add_version({parent}) was rejected naming {named}, the client pulled again and found no child of {parent}"), replay);
+                        return None;
+                    }
+                }
+            }
             CEv::AddRet { client, parent, bytes, result, log_at } => match result {
                 Ok(AddVersionResult2::Ok(v)) => {
+                    last_rejected.remove(client);
                     submitted.insert(*v, bytes.clone());
                     if !accepted_parents.insert(*parent) {
                         out.violate("two-accepted-children".to_string(), format!("client {client}: version {v} accepted for parent {parent}, which already has an accepted child"), replay);
@@ -138,8 +154,9 @@ pub fn run_schedule(tag: &str, index: u64, sc: &Scenario, source: &mut dyn Decis
                 }
                 Ok(AddVersionResult2::Expected(x)) => {
                     out.count("rejected_adds", 1);
-                    // the matching call event gives the interval
-                    let from = events.iter().rev().find_map(|e| match e { CEv::AddCall { client: c2, parent: p2, bytes: b2, log_at } if c2 == client && p2 == parent && b2 == bytes => Some(*log_at), _ => None }).unwrap_or(log0);
+                    last_rejected.insert(*client, (*parent, *x));
+                    // the matching call event (the latest one before this return) gives the interval
+                    let from = events[..ev_idx].iter().rev().find_map(|e| match e { CEv::AddCall { client: c2, parent: p2, bytes: b2, log_at } if c2 == client && p2 == parent && b2 == bytes => Some(*log_at), _ => None }).unwrap_or(log0);
                     let lat = latest_during(&store_log, from, *log_at, initial_latest);
                     let named = if x.is_nil() { None } else { Some(*x) };
                     if !lat.contains(&named) {
@@ -150,11 +167,14 @@ pub fn run_schedule(tag: &str, index: u64, sc: &Scenario, source: &mut dyn Decis
                         out.violate("spurious-rejection".to_string(), format!("client {client}: add_version({parent}) was rejected although 'latest' equalled the parent throughout the call"), replay);
                         return None;
                     }
-                    if store_log[from..(*log_at).min(store_log.len())].iter().any(|e| e.client == *client as u32 && e.outcome == "cas-false") {
+                    if store_log[from.min(*log_at)..(*log_at).min(store_log.len())].iter().any(|e| e.client == *client as u32 && e.outcome == "cas-false") {
                         lost_cas += 1;
                     }
                 }
-                Err(_) => out.count("add_errors", 1),
+                Err(_) => {
+                    last_rejected.remove(client);
+                    out.count("add_errors", 1)
+                }
             },
             CEv::GetRet { client, parent, result } => {
                 if let Ok(Some((v, b))) = result {
